@@ -1242,8 +1242,9 @@ class Compiler:
         if isinstance(node.body, BlockStatement):
             self._collect_var_decls(node.body, local_vars_set)
         # var declarations are hoisted: they are locals from the first
-        # statement on, exactly as in _compile_function
-        for var in local_vars_set:
+        # statement on, exactly as in _compile_function (slots are numbered in
+        # name order: set iteration order changes with the host's hash seed)
+        for var in sorted(local_vars_set):
             if var not in self.locals:
                 self.locals.append(var)
 
@@ -1351,8 +1352,9 @@ class Compiler:
         # Collect all var declarations to know the full locals set
         local_vars_set = set(self.locals)
         self._collect_var_decls(body, local_vars_set)
-        # Update locals list with collected vars
-        for var in local_vars_set:
+        # Update locals list with collected vars (in name order, not in the
+        # hash-seed dependent iteration order of the set)
+        for var in sorted(local_vars_set):
             if var not in self.locals:
                 self.locals.append(var)
 
